@@ -206,6 +206,9 @@ fn canon_values(d: &InterpreterData, c: &air_interpreter_cid::CID<CanonResultCid
 pub fn c11(m: &mut Mon, w: &mut World, idx: usize) {
     let an = m.analysis.clone();
     let run = &w.runs[idx];
+    if !run.stored {
+        return; // the outcome of this run was lost in a crash: its canon never ran as far as the peer's store knows
+    }
     let eid = run.eid;
     let peer = run.peer;
     // (a) every call that takes a canonical value sees the same value for the same canon instance, anywhere, any time
